@@ -5,6 +5,7 @@ pub mod dlimiter;
 pub mod dsync;
 pub mod dagent;
 pub mod dstore;
+pub mod dresponder;
 
 /// Identity of an announcement: hash of its wire encoding.
 pub fn node_ann_id(a: &radicle_node::service::message::Announcement) -> u64 {
